@@ -96,11 +96,66 @@ func main() {
 			replace[src] = dst
 		}
 	}
+	// gorilla/websocket guards its writes with a one-slot channel used as a mutex; a goroutine waiting for it
+	// blocks in the Go runtime, outside the controlled scheduler. Its three uses become scheduling points.
+	gorillaMutex(*repo, *out, replace)
 	j, _ := json.MarshalIndent(map[string]any{"Replace": replace}, "", " ")
 	if err := os.WriteFile(filepath.Join(*out, "overlay.json"), j, 0o644); err != nil {
 		die("%v", err)
 	}
 	fmt.Printf("overlaygen: %d files rewritten\n", len(replace))
+}
+
+func gorillaMutex(repo, out string, replace map[string]string) {
+	gm, err := os.ReadFile(filepath.Join(repo, "go.mod"))
+	if err != nil {
+		die("%v", err)
+	}
+	ver := ""
+	for _, l := range strings.Split(string(gm), "\n") {
+		f := strings.Fields(l)
+		if len(f) >= 2 && f[0] == "github.com/gorilla/websocket" {
+			ver = f[1]
+		}
+	}
+	if ver == "" {
+		die("github.com/gorilla/websocket not found in go.mod")
+	}
+	cache := os.Getenv("GOMODCACHE")
+	if cache == "" {
+		gp := os.Getenv("GOPATH")
+		if gp == "" {
+			home, _ := os.UserHomeDir()
+			gp = filepath.Join(home, "go")
+		}
+		cache = filepath.Join(gp, "pkg", "mod")
+	}
+	src := filepath.Join(cache, "github.com", "gorilla", "websocket@"+ver, "conn.go")
+	b, err := os.ReadFile(src)
+	if err != nil {
+		die("gorilla/websocket source: %v", err)
+	}
+	t := string(b)
+	subst := [][2]string{
+		{"\t<-c.mu\n\tdefer func() { c.mu <- struct{}{} }()\n\n\tc.writeErrMu.Lock()", "\tVerifMuLock(c.mu)\n\tdefer func() { VerifMuUnlock(c.mu) }()\n\n\tc.writeErrMu.Lock()"},
+		{"\tselect {\n\tcase <-c.mu:\n\t\ttimer.Stop()\n\tcase <-timer.C:\n\t\treturn errWriteTimeout\n\t}\n\tdefer func() { c.mu <- struct{}{} }()", "\tVerifMuLock(c.mu); timer.Stop()\n\tdefer func() { VerifMuUnlock(c.mu) }()"},
+	}
+	for _, sb := range subst {
+		if strings.Count(t, sb[0]) != 1 {
+			die("gorilla/websocket %s conn.go does not have the expected write-mutex code (%q): adapt tools/overlaygen", ver, sb[0][:20])
+		}
+		t = strings.Replace(t, sb[0], sb[1], 1)
+	}
+	if strings.Contains(t, "<-c.mu") || strings.Contains(t, "c.mu <-") {
+		die("gorilla/websocket %s conn.go has further uses of its write mutex: adapt tools/overlaygen", ver)
+	}
+	// the package cannot import the scheduler (another module): the harness installs the two functions
+	t += "\n// VerifMuLock / VerifMuUnlock take and give back the write mutex (set by the verification harness).\nvar VerifMuLock = func(mu chan struct{}) { <-mu }\nvar VerifMuUnlock = func(mu chan struct{}) { mu <- struct{}{} }\n"
+	dst := filepath.Join(out, "gorilla_websocket_conn.go")
+	if err := os.WriteFile(dst, []byte(t), 0o644); err != nil {
+		die("%v", err)
+	}
+	replace[src] = dst
 }
 
 var builtins = map[string]bool{"close": true, "panic": true, "print": true, "println": true, "delete": true, "copy": true, "append": true, "recover": true, "clear": true}
